@@ -129,6 +129,39 @@ impl World {
                 }
             }
         }
+        // C07: the library never counts as applied what the application has not applied yet
+        if let Some(l) = self.live(i) {
+            let app = l.rn.store().app.applied;
+            if post.applied > app {
+                ctx.v(
+                    "C07",
+                    "library's applied index is ahead of what the application applied",
+                    format!("node {}: raft_log.applied = {} but the application has applied up to {}", id, post.applied, app),
+                );
+            }
+        }
+        // C07/C06: what the library counts as persisted is durable. For every retained index up
+        // to `persisted` the durable log holds the entry the node holds (the persisted index
+        // drives hand-out, acknowledgements and the leader's own vote for a commit)
+        {
+            let d = &self.nodes[i].disk;
+            let lo = post.first.max(d.snap_index + 1);
+            for k in lo..=post.persisted.min(post.last) {
+                let mine = post.at(k).map(|x| x.0);
+                let dur = d.term_of(k);
+                if mine.is_some() && dur != mine {
+                    ctx.v(
+                        "C07",
+                        "persisted index covers an entry that is not durable",
+                        format!(
+                            "node {}: persisted = {} but index {} (term {:?}) is on durable storage as {:?}",
+                            id, post.persisted, k, mine, dur
+                        ),
+                    );
+                    break;
+                }
+            }
+        }
         // C02: one leader per term
         if post.role == StateRole::Leader {
             let durable = {
@@ -1843,6 +1876,9 @@ impl World {
         let lease = self.cfg(i).lease_read;
         for rs in rd.read_states() {
             ctx.stat(Stat::ReadStates);
+            if self.scen.same_read_ctx {
+                continue;
+            }
             let mut b = [0u8; 4];
             if rs.request_ctx.len() == 4 {
                 b.copy_from_slice(&rs.request_ctx);
